@@ -292,15 +292,24 @@ def run(idx: ProgramIndex, rep: Report, tier: str, selftest: bool = True):
                                  helper.loc()))
     # (c) every diagonal update is followed by a NumericalWarning before the next factorization / exit
     updates = []
+    # names bound to a diagonal VIEW (Aprime_diag = Aprime.diagonal(dim1=-1, dim2=-2)) count as the diagonal
+    diag_views = {n.ast.targets[0].id for n in cfg.stmt_nodes() if n.kind == "stmt" and isinstance(n.ast, ast.Assign)
+                  and len(n.ast.targets) == 1 and isinstance(n.ast.targets[0], ast.Name)
+                  and isinstance(n.ast.value, ast.Call) and isinstance(n.ast.value.func, ast.Attribute)
+                  and n.ast.value.func.attr == "diagonal"}
+
+    def is_diag(e: ast.AST) -> bool:
+        return "diagonal" in norm(e) or (isinstance(e, ast.Name) and e.id in diag_views)
+
     for n in cfg.stmt_nodes():
         if n.kind != "stmt":
             continue
         for x in ast.walk(n.ast):
             if isinstance(x, ast.Call) and isinstance(x.func, ast.Attribute) and x.func.attr in ("add_", "addcmul_", "sub_") \
-                    and "diagonal" in norm(x.func.value):
+                    and is_diag(x.func.value):
                 updates.append((n, x))
-            if isinstance(n.ast, ast.AugAssign) and "diagonal" in norm(n.ast.target):
-                updates.append((n, n.ast))
+        if isinstance(n.ast, ast.AugAssign) and is_diag(n.ast.target):
+            updates.append((n, n.ast))
     warn_nodes = {n.id for n in cfg.stmt_nodes() if n.kind == "stmt" and any(
         isinstance(x, ast.Call) and (dotted(x.func) or "").endswith("warn") and "NumericalWarning" in norm(x)
         for x in ast.walk(n.ast))}
@@ -331,9 +340,40 @@ def run(idx: ProgramIndex, rep: Report, tier: str, selftest: bool = True):
                 if isinstance(y, ast.Name):
                     addend_reads |= {y.id} | deps.get(y.id, set())
         per_member = bool(addend_reads & info_names)
+        # ... and on the generation of info produced by the LATEST factorization: info is re-bound inside the retry loop,
+        # so the chain addend -> info must run through definitions that are re-evaluated inside the loop
+        in_loop_defs: Dict[str, Set[str]] = {}
+        for st in ast.walk(loop.ast):
+            if isinstance(st, ast.Assign):
+                rd = {y.id for y in ast.walk(st.value) if isinstance(y, ast.Name)}
+                for t in st.targets:
+                    for y in ast.walk(t):
+                        if isinstance(y, ast.Name):
+                            in_loop_defs.setdefault(y.id, set()).update(rd)
+        info_rebound_in_loop = any(i in in_loop_defs for i in info_names)
+        direct = set()
+        for a in args:
+            direct |= {y.id for y in ast.walk(a) if isinstance(y, ast.Name)}
+        fresh, work, seen_n = False, list(direct), set()
+        while work:
+            nm = work.pop()
+            if nm in seen_n:
+                continue
+            seen_n.add(nm)
+            if nm in info_names:
+                fresh = True
+                break
+            if nm in in_loop_defs:
+                work += list(in_loop_defs[nm])
         sample = {"update": short(x, 70), "addend_depends_on": sorted(a for a in addend_reads if "." not in a)[:12]}
-        if per_member:
-            rep.ok("C16.D", {**sample, "per_batch_member": True})
+        if per_member and (fresh or not info_rebound_in_loop):
+            rep.ok("C16.D", {**sample, "per_batch_member": True, "info_generation": "current (re-evaluated inside the retry loop)"})
+        elif per_member:
+            rep.bad("C16.D", Finding(PROP, "C16.D", fname(helper), norm(x) + " [stale info]",
+                                     "the addend depends on the info codes only through a value computed BEFORE the retry loop, "
+                                     "while info is re-bound by every retry: members that a smaller jitter already fixed keep "
+                                     "being perturbed with the larger jitters (per-member jitter is lost after the first try)",
+                                     helper.loc(x)))
         else:
             rep.bad("C16.D", Finding(PROP, "C16.D", fname(helper), norm(x) + " [info]",
                                      "the addend of the diagonal update does not depend on the info codes: members of the "
@@ -376,8 +416,25 @@ def run(idx: ProgramIndex, rep: Report, tier: str, selftest: bool = True):
                                  helper.loc(loop.ast)))
 
     # ---------------------------------------------------------------- U
-    rep.rule("C16.U", "upper=True transposes the factor (or the out buffer holding it), upper=False nothing", floor=2)
+    rep.rule("C16.U", "the factor returned for upper=True is the upper one, for upper=False the lower one", floor=2)
     pcfg = CFG(pub)
+
+    def chol_orientations(fn: FunctionInfo, upper_value: Optional[bool]) -> Set[object]:
+        """Orientation (True = upper) of every factor bound from cholesky_ex / cholesky in fn, the function's own
+        `upper` parameter having the given value (None: the function has no such parameter)."""
+        out: Set[object] = set()
+        for x in walk_body(fn):
+            if isinstance(x, ast.Call) and (dotted(x.func) or "").split(".")[-1] in ("cholesky_ex", "cholesky"):
+                kw = next((k.value for k in x.keywords if k.arg == "upper"), None)
+                if kw is None:
+                    out.add(False)
+                elif isinstance(kw, ast.Constant):
+                    out.add(bool(kw.value))
+                elif isinstance(kw, ast.Name) and kw.id == "upper" and upper_value is not None:
+                    out.add(upper_value)
+                else:
+                    out.add("?")
+        return out
 
     def flips_on(path: List[int]) -> int:
         k = 0
@@ -393,6 +450,36 @@ def run(idx: ProgramIndex, rep: Report, tier: str, selftest: bool = True):
                     k += 1
         return k
 
+    def base_orientations(path: List[int], want: bool) -> Set[object]:
+        """Orientation of the factor before the transpositions of the path: from the helper call on the path (with the
+        value of `upper` it is given) or from a direct cholesky call in psd_safe_cholesky itself."""
+        out: Set[object] = set()
+        for nid in path:
+            nd = pcfg.nodes[nid]
+            if nd.kind != "stmt" or nd.ast is None:
+                continue
+            for x in ast.walk(nd.ast):
+                if isinstance(x, ast.Call) and isinstance(x.func, ast.Name) and helper is not pub and x.func.id == helper.name:
+                    hv: Optional[bool] = None
+                    if "upper" in helper.params():
+                        kw = next((k.value for k in x.keywords if k.arg == "upper"), None)
+                        pos = helper.params().index("upper")
+                        if kw is None and pos < len(x.args):
+                            kw = x.args[pos]
+                        if kw is None:
+                            dv = helper.defaults().get("upper")
+                            hv = bool(dv.value) if isinstance(dv, ast.Constant) else False
+                        elif isinstance(kw, ast.Constant):
+                            hv = bool(kw.value)
+                        elif isinstance(kw, ast.Name) and kw.id == "upper":
+                            hv = want
+                        else:
+                            return {"?"}
+                    out |= chol_orientations(helper, hv)
+                elif isinstance(x, ast.Call) and (dotted(x.func) or "").split(".")[-1] in ("cholesky_ex", "cholesky"):
+                    out |= chol_orientations(pub, want)
+        return out
+
     for want in (True, False):
         def prune(a, b, pol, want=want):
             na = pcfg.nodes[a]
@@ -403,15 +490,22 @@ def run(idx: ProgramIndex, rep: Report, tier: str, selftest: bool = True):
                     return pol == want
             return False
         paths = list(pcfg.acyclic_paths(prune=prune, limit=500))
-        counts = sorted({flips_on(p) for p in paths})
-        good = bool(paths) and (all(c % 2 == 1 for c in counts) if want else all(c % 2 == 0 for c in counts))
-        sample = {"upper": want, "paths": len(paths), "transpositions_per_path": counts}
-        if good:
+        finals: Set[object] = set()
+        for pth in paths:
+            par = flips_on(pth) % 2 == 1
+            for b0 in (base_orientations(pth, want) or {"none"}):
+                finals.add(b0 if b0 in ("?", "none") else (b0 != par))
+        sample = {"upper": want, "paths": len(paths), "orientation_of_returned_factor": sorted(str(f) for f in finals)}
+        if "?" in finals or "none" in finals:
+            rep.error(f"psd_safe_cholesky(upper={want}): orientation of the factor could not be determined ({sorted(map(str, finals))})")
+        elif finals == {want}:
             rep.ok("C16.U", sample)
         else:
-            rep.bad("C16.U", Finding(PROP, "C16.U", fname(pub), f"upper={want}: transpositions per path {counts}",
-                                     f"psd_safe_cholesky(upper={want}) applies {counts} transposition(s) on its paths: the "
-                                     f"{'upper' if want else 'lower'} factor is not what is returned", pub.loc()))
+            rep.bad("C16.U", Finding(PROP, "C16.U", fname(pub), f"upper={want}: returned orientation {sorted(map(str, finals))}",
+                                     f"psd_safe_cholesky(upper={want}) can return a factor whose orientation is "
+                                     f"{['lower' if f is False else 'upper' for f in sorted(finals, key=str)]} (factorization "
+                                     "sites x transpositions on the path): the retry path and the first attempt must agree with "
+                                     "the request", pub.loc()), sample)
     if "upper" not in pub.params():
         rep.error("psd_safe_cholesky no longer takes `upper`")
 
